@@ -200,7 +200,11 @@ func TestVerif_C13_e2eh3(t *testing.T) {
 		flow := flows[c%len(flows)]
 		feature := verifh.Pick(r, features)
 		sc := c13GenGScenario(s, flow, feature, 100000)
-		cfg, level, subset := c13GenCfg(s, c, &reqAsync, sc)
+		budget := &reqAsync
+		if sc.body != "" {
+			budget = new(int) // a pair belongs to one finding only: no request-level async where the HTTP/3 body dump is involved
+		}
+		cfg, level, subset := c13GenCfg(s, c, budget, sc)
 		timeout := 5 * time.Second
 		margin := 3 * time.Second
 		if cfg.rq != nil && cfg.rq.async {
